@@ -45,9 +45,18 @@ Proof.
   cbn [fst] in Hok, Hext.
   destruct ok; [split; [exact Hok|exact Hext]|].
   destruct (abs =? data_base (ws_opts s) + ws_pos s); [split; [exact Hok|exact Hext]|].
+  (* the Truncate of a rewind: done (a log step) or failed (device untouched but for the script) *)
+  assert (Htry : forall n, (dev_ok f0 (ws_dev s) -> dev_ok f0 (fst (dev_try_truncate dv n))) /\
+                           log_ext (ws_dev s) (fst (dev_try_truncate dv n))).
+  { intros n. unfold dev_try_truncate. destruct (d_faults dv) as [|[kk|] rest]; cbn [fst].
+    - split; [intros H; apply dev_ok_truncate, Hok, H|eapply log_ext_trans; [exact Hext|apply log_ext_truncate]].
+    - split; [intros H; exact (Hok H)|destruct Hext as (L & HL); exists L; exact HL].
+    - split; [intros H; apply (dev_ok_step f0 dv (Trunc n) (Hok H))|eapply log_ext_trans; [exact Hext|apply log_ext_step]]. }
   destruct (ws_kind s) as [|[|]]; cbn [fst set_dev set_flags ws_dev].
-  - split; [intros H; apply dev_ok_truncate, Hok, H|eapply log_ext_trans; [exact Hext|apply log_ext_truncate]].
-  - split; [intros H; apply dev_ok_truncate, Hok, H|eapply log_ext_trans; [exact Hext|apply log_ext_truncate]].
+  - specialize (Htry (data_base (ws_opts s) + ws_pos s)).
+    destruct (dev_try_truncate dv (data_base (ws_opts s) + ws_pos s)) as [dv' [|]]; cbn [fst] in *; exact Htry.
+  - specialize (Htry (data_base (ws_opts s) + ws_pos s)).
+    destruct (dev_try_truncate dv (data_base (ws_opts s) + ws_pos s)) as [dv' [|]]; cbn [fst] in *; exact Htry.
   - split; [exact Hok|exact Hext].
 Qed.
 
